@@ -8,7 +8,7 @@ use slac::{StaticEnvironment, Value as V};
 fn chars(s: &str) -> String { format!("[{}]", s.chars().map(|c| if c == '\'' { "'\\''".to_string() } else if c == '\\' { "'\\\\'".to_string() } else { format!("'{}'", c) }).collect::<Vec<_>>().join(",")) }
 
 /// kind mask documented for each parameter position: bit 0 Boolean, 1 String, 2 Number, 3 Array (15 = Any)
-fn doc_masks(params: &str) -> (Vec<u32>, bool) {
+pub fn doc_masks(params: &str) -> (Vec<u32>, bool) {
     let inner = params.trim_start_matches('(');
     let inner = match inner.rfind(')') { Some(i) => &inner[..i], None => inner };
     if inner.trim() == "..." { return (vec![], true); }
